@@ -36,17 +36,9 @@ func NatLess(a, b string) bool { return natsort.Less(a, b) }
 func NatStrings(a []string)    { natsort.Strings(a) }
 func NatIsDigit(b byte) bool   { return natsort.VerifIsDigit(b) }
 
-// GepIndex mirrors gep.Index.
-type GepIndex struct {
-	HasVal    bool
-	Val       int64
-	VectorLen uint64
-}
+// GepIndex is gep.Index.
+type GepIndex = gep.Index
 
 func GepResultType(elemType, src types.Type, indices []GepIndex) types.Type {
-	idx := make([]gep.Index, len(indices))
-	for i, x := range indices {
-		idx[i] = gep.Index{HasVal: x.HasVal, Val: x.Val, VectorLen: x.VectorLen}
-	}
-	return gep.ResultType(elemType, src, idx)
+	return gep.ResultType(elemType, src, indices)
 }
